@@ -223,7 +223,7 @@ func requireBurst(r *vlib.Run) {
 
 func requireFull(r *vlib.Run) {
 	for k, v := range map[string]int64{
-		"full_cases": 9, "full_q_total": 100, "full_failures_upstream": 15, "full_zone_failures_recorded": 12,
+		"full_cases": 10, "full_q_total": 100, "full_failures_upstream": 15, "full_zone_failures_recorded": 12,
 		"full_q_suppressed": 15, "full_suppressed_by_zone_state": 12, "full_suppressed_by_dead_zone_state": 1,
 		"full_must_reach_checks": 60, "full_must_reach_held": 50, "full_probes_after_expiry": 6,
 		"full_probes_after_reset": 2, "full_useful_answers_resetting_state": 1,
@@ -234,6 +234,7 @@ func requireFull(r *vlib.Run) {
 		"full_local_followup_budget": 1, "full_budget_exhausted_replies": 1,
 		"full_client_left_while_parked_at_authority": 2, "full_client_left_during_ns_address_lookup": 1,
 		"full_enrichment_failures_observed": 1, "full_local_followup_enrichment": 1,
+		"full_shed_nsaddr_struck": 1, "full_local_followup_shed-ns-address": 2,
 	} {
 		r.Require(k, v)
 	}
